@@ -406,7 +406,7 @@ func checkC04(c *Ctx) {
 		}
 		t := &Tmpl{NS: "app.main", Name: "entry", Params: params, Body: body, Header: variant&1 == 1}
 		main := &File{Name: "main.soy", NS: "app.main", Aliases: []string{"lib.deep"}, Tmpls: []*Tmpl{t}}
-		files := []*File{main, lib[0]}
+		files := withLib(main, lib)
 		if len(checkRules(files)) > 0 {
 			return
 		}
@@ -431,8 +431,8 @@ func checkC04(c *Ctx) {
 		if len(ds) == 0 {
 			return
 		}
-		srcs := map[string]string{"main.soy": main.src(), "lib.soy": lib[0].src()}
-		r := renderBoth([]string{"main.soy", "lib.soy"}, srcs, nil, []string{"app.main.entry"}, ds, exprIJ, nil)
+		srcs := map[string]string{"main.soy": main.src()}
+		r := renderBoth(libSrcs(srcs, lib), srcs, nil, []string{"app.main.entry"}, ds, exprIJ, nil)
 		compareBoth(c, r, c04case{Files: map[string]string{"main.soy": srcs["main.soy"]}, Entry: "app.main.entry", Sketch: skCmds(body)}, ds, "cmd:"+skCmds(body), func(i int) (string, bool) {
 			x := newRefExec(files, exprIJ)
 			w, st := x.run("app.main.entry", ds[i])
